@@ -26,6 +26,7 @@ RL = "runlengtharray.RunLengthArray."
 def check(ctx, tier):
     tk = Toolkit(ctx)
     slice_bounds(ctx, tk)
+    rlrules.slice_range_model(ctx, "C15.i")
     lookups(ctx, tk)
     f = ctx.func(RL + "_step_subset")
     rlrules.ceil_rescale(ctx, "C15.c", f)
